@@ -231,7 +231,12 @@ def known_findings():
 def finding_present(kf, hexe):
     """Is the listed deviation still exhibited by the real crate on its corpus history?"""
     path = os.path.join(VERIF, kf['history'])
-    lines = [l.rstrip('\n') for l in open(path) if l.strip() and not l.startswith('#') and l.strip() != 'end']
+    lines = []
+    for l in open(path):
+        if l.strip() == 'end':
+            break
+        if l.strip() and not l.startswith('#'):
+            lines.append(l.rstrip('\n'))
     conf = rcc.harness_layout(hexe)
     tmp = os.path.join(rcc.BUILD, 'work', 'kf-' + kf['id'] + '.prog')
     os.makedirs(os.path.dirname(tmp), exist_ok=True)
